@@ -89,6 +89,37 @@ func countEpoch(spec *common.Spec, c Counters, pre, post *absstate.State) {
 		}
 	}
 	c.Add("activations", activated)
+	// queue-vs-churn classes: churn limit of this epoch, validators eligible for activation at this transition
+	// (eligibility epoch <= the finalized epoch the registry step sees), ejections in this single transition
+	active := 0
+	for i := 0; i < n; i++ {
+		if pre.Validators[i].Act <= epoch && epoch < pre.Validators[i].Exit {
+			active++
+		}
+	}
+	churn := active / int(spec.CHURN_LIMIT_QUOTIENT)
+	if churn < int(spec.MIN_PER_EPOCH_CHURN_LIMIT) {
+		churn = int(spec.MIN_PER_EPOCH_CHURN_LIMIT)
+	}
+	eligible := 0
+	for i := 0; i < n; i++ {
+		if pre.Validators[i].Act == absstate.Far && pre.Validators[i].Elig <= post.Fin.Epoch {
+			eligible++
+		}
+	}
+	capLimit := int(spec.MAX_PER_EPOCH_ACTIVATION_CHURN_LIMIT)
+	if pre.Fork == "deneb" {
+		if churn > capLimit && eligible > capLimit {
+			c.Add("deneb_activation_cap_binding", 1) // EIP-7514: the cap, not the churn limit, decides
+		}
+	} else if eligible > churn {
+		c.Add("activation_queue_exceeds_churn_pre_deneb", 1)
+		c.Add("activation_queue_exceeds_churn_"+pre.Fork, 1)
+	}
+	if ejected > churn {
+		c.Add("ejections_exceed_churn", 1)
+		c.Add("ejections_exceed_churn_"+pre.Fork, 1)
+	}
 	c.Add("activation_queue_entries", queued)
 	c.Add("effective_balance_changes", effChanged)
 	c.Add("slashing_penalties", slashPenalised)
